@@ -9,6 +9,7 @@ pub enum Ty {
     F64,
     Bool,
     Int,
+    Nat,
     Unit,
     Named(String),
     Tuple(Vec<Ty>),
@@ -37,6 +38,7 @@ impl Ty {
             Ty::F64 => "f64".into(),
             Ty::Bool => "bool".into(),
             Ty::Int => "int".into(),
+            Ty::Nat => "nat".into(),
             Ty::Unit => "()".into(),
             Ty::Named(n) => n.clone(),
             Ty::Tuple(v) => format!("({})", v.iter().map(|t| t.show()).collect::<Vec<_>>().join(", ")),
@@ -65,6 +67,13 @@ pub struct TypeInfo {
     pub rust: String,
     pub coq: String,
     pub destruct: bool,
+    pub partial: bool,
+    pub usize_nat: bool,
+    /// fields that are constant during the life of the value and live outside the Coq record:
+    /// (rust field, coq term, type)
+    pub ambient: Vec<(String, String, Ty)>,
+    /// the extra binders every function over this type takes: (name, coq type)
+    pub ambient_binders: Vec<(String, String)>,
     pub kind: TypeKind,
 }
 
@@ -96,15 +105,45 @@ pub struct FnInfo {
     pub is_const: bool,
     pub identity_ctor: bool,
     pub identity_coeffs: bool,
-    pub also: Vec<(String, Option<String>, Vec<String>)>,
+    pub also: Vec<(String, Option<String>, Vec<String>, Option<String>)>,
     pub label: String,
     pub params: Vec<Param>,
     pub has_self: bool,
+    /// indices of the `&mut` parameters (incl. `&mut self`): threaded through as state
+    pub mut_params: Vec<usize>,
+    pub usize_nat: bool,
+    /// call template used instead of `model args` when other functions call this one
+    pub call: Option<String>,
+    /// file (module name) under bridges/ that proves `br_<id>` for this function
+    pub bridge: Option<String>,
+    /// the whole statement to prove instead of `Gen.f args = model args` ($G = the generated call, $i = parameters)
+    pub stmt: Option<String>,
     pub ret: Ty,
     pub self_ty: Option<Ty>,
     pub body: Body,
     pub line: usize,
     pub load_error: Option<String>,
+}
+
+impl FnInfo {
+    /// what the Coq function returns: the result and the final values of the `&mut` parameters
+    pub fn ret_full(&self) -> Ty {
+        if self.mut_params.is_empty() {
+            return self.ret.clone();
+        }
+        let mut parts = Vec::new();
+        if self.ret != Ty::Unit {
+            parts.push(self.ret.clone());
+        }
+        for &i in &self.mut_params {
+            parts.push(self.params[i].ty.clone());
+        }
+        if parts.len() == 1 {
+            parts[0].clone()
+        } else {
+            Ty::Tuple(parts)
+        }
+    }
 }
 
 pub struct Ctx {
@@ -115,6 +154,8 @@ pub struct Ctx {
     pub imports: Vec<String>,
     pub derived_eq: HashMap<String, String>,
     pub consts: HashMap<String, String>,
+    /// the value that stands for a panic (`unwrap()` of `None`, index out of range), per type, as in the hand models
+    pub panic_defaults: HashMap<String, String>,
 }
 
 pub fn norm_tokens<T: quote::ToTokens>(t: &T) -> String {
@@ -135,6 +176,13 @@ fn has_cfg_test(attrs: &[syn::Attribute]) -> bool {
 
 pub struct Generics {
     pub into: HashMap<String, Ty>,
+    pub usize_nat: bool,
+}
+
+impl Generics {
+    pub fn none() -> Generics {
+        Generics { into: HashMap::new(), usize_nat: false }
+    }
 }
 
 impl Ctx {
@@ -150,6 +198,7 @@ impl Ctx {
                     Ty::Tuple(tp.elems.iter().map(|e| self.ty_of(e, self_ty, output, g)).collect())
                 }
             }
+            syn::Type::Slice(sl) => Ty::List(Box::new(self.ty_of(&sl.elem, self_ty, output, g))),
             syn::Type::Array(a) => {
                 let n = match &a.len {
                     syn::Expr::Lit(l) => match &l.lit {
@@ -183,6 +232,7 @@ impl Ctx {
                         match id.as_str() {
                             "f64" => return Ty::F64,
                             "bool" => return Ty::Bool,
+                            "usize" if g.usize_nat => return Ty::Nat,
                             "i32" | "usize" | "u32" | "i64" | "isize" | "u64" | "u8" => return Ty::Int,
                             "Self" => return self_ty.cloned().unwrap_or(Ty::Other(s)),
                             "Option" => {
@@ -192,7 +242,11 @@ impl Ctx {
                             }
                             "ArrayVec" | "Vec" => {
                                 if let Some(a) = first_type_arg(last) {
-                                    return Ty::List(Box::new(self.ty_of(a, self_ty, output, g)));
+                                    let el = match self.ty_of(a, self_ty, output, g) {
+                                        Ty::Range => Ty::Tuple(vec![Ty::F64, Ty::F64]),
+                                        t => t,
+                                    };
+                                    return Ty::List(Box::new(el));
                                 }
                             }
                             "Range" => {
@@ -233,8 +287,8 @@ impl Ctx {
     }
 
     pub fn generics_of(&self, gs: &syn::Generics, self_ty: Option<&Ty>) -> Generics {
-        let mut g = Generics { into: HashMap::new() };
-        let empty = Generics { into: HashMap::new() };
+        let mut g = Generics::none();
+        let empty = Generics::none();
         for p in &gs.params {
             if let syn::GenericParam::Type(tp) = p {
                 for b in &tp.bounds {
@@ -254,6 +308,7 @@ impl Ctx {
             Ty::F64 => "T".into(),
             Ty::Bool => "bool".into(),
             Ty::Int => "Z".into(),
+            Ty::Nat => "nat".into(),
             Ty::Unit => "unit".into(),
             Ty::Named(n) => match self.types.get(n) {
                 Some(ti) => format!("({})", ti.coq),
@@ -331,7 +386,15 @@ pub fn load(repo: &str, spec: &Value) -> Result<Ctx, String> {
         imports: spec["imports"].as_array().map(|a| a.iter().filter_map(|x| x.as_str().map(|s| s.to_string())).collect()).unwrap_or_default(),
         derived_eq: HashMap::new(),
         consts: HashMap::new(),
+        panic_defaults: HashMap::new(),
     };
+    if let Some(m) = spec.get("panic_defaults").and_then(|x| x.as_object()) {
+        for (k, v) in m {
+            if let Some(s) = v.as_str() {
+                ctx.panic_defaults.insert(k.clone(), s.to_string());
+            }
+        }
+    }
     if let Some(m) = spec.get("consts").and_then(|x| x.as_object()) {
         for (k, v) in m {
             if let Some(s) = v.as_str() {
@@ -356,12 +419,20 @@ pub fn load(repo: &str, spec: &Value) -> Result<Ctx, String> {
                 rust: rust.clone(),
                 coq: jstr(t, "coq").unwrap_or_default(),
                 destruct: t.get("destruct").and_then(|x| x.as_bool()).unwrap_or(true),
+                partial: t.get("partial").and_then(|x| x.as_bool()).unwrap_or(false),
+                usize_nat: t.get("usize_as_nat").and_then(|x| x.as_bool()).unwrap_or(false),
+                ambient: vec![],
+                ambient_binders: t
+                    .get("ambient_binders")
+                    .and_then(|x| x.as_array())
+                    .map(|a| a.iter().map(|p| (p[0].as_str().unwrap_or("").to_string(), p[1].as_str().unwrap_or("").to_string())).collect())
+                    .unwrap_or_default(),
                 kind: TypeKind::Transparent(Ty::Unknown),
             },
         );
         ctx.type_order.push(rust);
     }
-    let empty = Generics { into: HashMap::new() };
+    let empty = Generics::none();
     let mut type_errs: Vec<String> = Vec::new();
     // transparent types first
     for pass in 0..2 {
@@ -401,18 +472,45 @@ pub fn load(repo: &str, spec: &Value) -> Result<Ctx, String> {
                         } else if let Some(fl) = t.get("fields").and_then(|x| x.as_array()) {
                             if let syn::Fields::Named(nf) = &s.fields {
                                 let mut fields = Vec::new();
+                                let mut ambient = Vec::new();
+                                let mut g = Generics::none();
+                                g.usize_nat = t.get("usize_as_nat").and_then(|x| x.as_bool()).unwrap_or(false);
+                                let field_ty = |ctx: &Ctx, pair: &Value, sf: &syn::Field| -> Ty {
+                                    // optional third component: a Rust type to use instead of the declared one
+                                    // (e.g. "Vec<PathEl>" for a generic iterator field)
+                                    match pair.get(2).and_then(|x| x.as_str()) {
+                                        Some(o) => match syn::parse_str::<syn::Type>(o) {
+                                            Ok(ty) => ctx.ty_of(&ty, None, None, &g),
+                                            Err(_) => Ty::Other(o.to_string()),
+                                        },
+                                        None => ctx.ty_of(&sf.ty, None, None, &g),
+                                    }
+                                };
                                 for pair in fl {
                                     let rf = pair[0].as_str().unwrap_or("").to_string();
                                     let cf = pair[1].as_str().unwrap_or("").to_string();
                                     let sf = nf.named.iter().find(|x| x.ident.as_ref().map(|i| i == rf.as_str()).unwrap_or(false));
                                     match sf {
-                                        Some(sf) => fields.push((rf, cf, ctx.ty_of(&sf.ty, None, None, &empty))),
+                                        Some(sf) => fields.push((rf, cf, field_ty(&ctx, pair, sf))),
                                         None => { type_errs.push(format!("spec type {}: field {} not in the Rust struct", rust, rf)); continue; }
                                     }
                                 }
-                                if fields.len() != nf.named.len() {
-                                    type_errs.push(format!("spec type {}: the Rust struct has {} fields, the spec lists {}", rust, nf.named.len(), fields.len()));
+                                if let Some(al) = t.get("ambient").and_then(|x| x.as_array()) {
+                                    for pair in al {
+                                        let rf = pair[0].as_str().unwrap_or("").to_string();
+                                        let cf = pair[1].as_str().unwrap_or("").to_string();
+                                        let sf = nf.named.iter().find(|x| x.ident.as_ref().map(|i| i == rf.as_str()).unwrap_or(false));
+                                        match sf {
+                                            Some(sf) => ambient.push((rf, cf, field_ty(&ctx, pair, sf))),
+                                            None => { type_errs.push(format!("spec type {}: field {} not in the Rust struct", rust, rf)); continue; }
+                                        }
+                                    }
                                 }
+                                let partial = t.get("partial").and_then(|x| x.as_bool()).unwrap_or(false);
+                                if !partial && fields.len() + ambient.len() != nf.named.len() {
+                                    type_errs.push(format!("spec type {}: the Rust struct has {} fields, the spec lists {}", rust, nf.named.len(), fields.len() + ambient.len()));
+                                }
+                                ctx.types.get_mut(&rust).unwrap().ambient = ambient;
                                 kind = Some(TypeKind::Record { ctor: jstr(t, "ctor").unwrap_or_default(), fields });
                             }
                         }
@@ -504,7 +602,7 @@ pub fn load(repo: &str, spec: &Value) -> Result<Ctx, String> {
                         .filter_map(|x| {
                             jstr(x, "model").map(|m| {
                                 let props = x.get("props").and_then(|p| p.as_array()).map(|p| p.iter().filter_map(|y| y.as_str().map(|s| s.to_string())).collect()).unwrap_or_default();
-                                (m, jstr(x, "model_app"), props)
+                                (m, jstr(x, "model_app"), props, jstr(x, "bridge"))
                             })
                         })
                         .collect()
@@ -513,6 +611,11 @@ pub fn load(repo: &str, spec: &Value) -> Result<Ctx, String> {
             label,
             params: vec![],
             has_self: false,
+            mut_params: vec![],
+            usize_nat: fs.get("usize_as_nat").and_then(|x| x.as_bool()).unwrap_or(false),
+            call: jstr(fs, "call"),
+            bridge: jstr(fs, "bridge"),
+            stmt: jstr(fs, "stmt"),
             ret: Ty::Unknown,
             self_ty: None,
             body: Body::None,
@@ -521,14 +624,23 @@ pub fn load(repo: &str, spec: &Value) -> Result<Ctx, String> {
         };
         let self_ty: Option<Ty> = impl_ty.as_ref().map(|i| match i.as_str() {
             "f64" => Ty::F64,
-            n => {
-                if ctx.types.contains_key(n) {
-                    Ty::Named(n.to_string())
-                } else {
-                    Ty::Other(n.to_string())
+            full => {
+                // `DashIterator<'a,T>`: the spec type is named by the base identifier
+                let n = full.split('<').next().unwrap_or(full);
+                match ctx.types.get(n) {
+                    Some(ti) => match &ti.kind {
+                        TypeKind::Transparent(inner) if *inner != Ty::Unknown => inner.clone(),
+                        _ => Ty::Named(n.to_string()),
+                    },
+                    None => Ty::Other(n.to_string()),
                 }
             }
         });
+        if let Some(Ty::Named(n)) = &self_ty {
+            if ctx.types[n].usize_nat {
+                info.usize_nat = true;
+            }
+        }
         info.self_ty = self_ty.clone();
         let f = &files[&file];
         // locate
@@ -576,6 +688,9 @@ pub fn load(repo: &str, spec: &Value) -> Result<Ctx, String> {
                         }
                     }
                 }
+                syn::Item::Const(c) if impl_ty.is_none() && is_const && c.ident == name.as_str() => {
+                    found_const.push((&c.ty, &c.expr, c.ident.span().start().line));
+                }
                 syn::Item::Fn(func) if impl_ty.is_none() && !has_cfg_test(&func.attrs) => {
                     if let Some(outer) = &nested_in {
                         if func.sig.ident == outer.as_str() {
@@ -617,6 +732,7 @@ pub fn load(repo: &str, spec: &Value) -> Result<Ctx, String> {
             let fd = &found[0];
             info.line = fd.line;
             let mut g = ctx.generics_of(&fd.sig.generics, self_ty.as_ref());
+            g.usize_nat = info.usize_nat;
             if let Some(ig) = fd.impl_generics {
                 let g2 = ctx.generics_of(ig, self_ty.as_ref());
                 g.into.extend(g2.into);
@@ -631,12 +747,20 @@ pub fn load(repo: &str, spec: &Value) -> Result<Ctx, String> {
             let mut idx = 0;
             for inp in &fd.sig.inputs {
                 match inp {
-                    syn::FnArg::Receiver(_) => {
+                    syn::FnArg::Receiver(r) => {
                         info.has_self = true;
+                        if r.reference.is_some() && r.mutability.is_some() {
+                            info.mut_params.push(idx);
+                        }
                         params.push(Param { pat: None, name: "self".into(), ty: self_ty.clone().unwrap_or(Ty::Unknown) });
                     }
                     syn::FnArg::Typed(pt) => {
                         let ty = ctx.ty_of(&pt.ty, self_ty.as_ref(), output.as_ref(), &g);
+                        if let syn::Type::Reference(r) = &*pt.ty {
+                            if r.mutability.is_some() {
+                                info.mut_params.push(idx);
+                            }
+                        }
                         match &*pt.pat {
                             syn::Pat::Ident(pi) => params.push(Param { pat: None, name: pi.ident.to_string(), ty }),
                             other => params.push(Param { pat: Some(other.clone()), name: format!("arg{}", idx), ty }),
@@ -646,16 +770,19 @@ pub fn load(repo: &str, spec: &Value) -> Result<Ctx, String> {
                 idx += 1;
             }
             info.params = params;
-            info.ret = match &fd.sig.output {
+            let ret_override = jstr(fs, "ret").and_then(|o| syn::parse_str::<syn::Type>(&o).ok());
+            info.ret = if let Some(t) = &ret_override { ctx.ty_of(t, self_ty.as_ref(), output.as_ref(), &g) } else {
+            match &fd.sig.output {
                 syn::ReturnType::Default => Ty::Unit,
                 syn::ReturnType::Type(_, t) => ctx.ty_of(t, self_ty.as_ref(), output.as_ref(), &g),
+            }
             };
             info.body = Body::Block(fd.block.clone());
         }
         if let Some(e) = impl_ty.as_ref().and_then(|t| bad_types.get(t)) {
             info.load_error = Some(format!("untranslatable: {}", e));
         }
-        let key = (impl_ty.clone().unwrap_or_default(), name.clone());
+        let key = (impl_ty.clone().map(|i| i.split('<').next().unwrap_or("").to_string()).unwrap_or_default(), name.clone());
         let i = ctx.fns.len();
         ctx.by_key.entry(key).or_default().push(i);
         ctx.fns.push(info);
